@@ -95,11 +95,17 @@ def generate(rng, tier, index):
             steps.append(rq)
         elif x < 0.92:
             o = ctx.pick_obj(None, 0)
+            its = [{'op': r.choice(['Get', 'GetAttributes',
+                                    'GetAttributeList']),
+                    'uid': ctx.ref(o)}]
+            for _ in range(r.choice([0, 0, 1, 2])):
+                its.append({'op': r.choice(['Query', 'GetAttributes',
+                                            'Locate']),
+                            'uid': ctx.ref(ctx.pick_obj(None, 0)),
+                            'funcs': [1], 'attrs': []})
             steps.append({'maxresp_probe': {
                 'actor': a, 'ver': list(r.choice(gen.VERSIONS)),
-                'items': [{'op': r.choice(['Get', 'GetAttributes',
-                                           'GetAttributeList']),
-                           'uid': ctx.ref(o)}]}})
+                'items': its, 'cont': 1 if len(its) > 1 else None}})
         elif x < 0.95:
             rq = gen.gen_request(ctx, actor=a, p_batch=0)
             rq['disk'] = [r.randrange(1, 30), r.choice([2, 3])]
